@@ -932,3 +932,42 @@ def start_before_submit(ctx: Ctx):
         yield ctx.ob('C14.START-BEFORE-SUBMIT', ok, site.fn, site.call, 'start_task(task) dominates submit_task(task)',
                      '' if ok else 'the task is handed to the runner before the scheduler state marks it started: an interrupt between the two leaves a '
                      'running task the state still holds as pending')
+
+
+@rule('C03.RUN-NO-BYPASS', ['C03', 'C01', 'C06', 'C17', 'C02'])
+def run_no_bypass(ctx: Ctx):
+    """Every result-returning exit of TaskCoordinator.run passes through the construction of the scheduler state: there is no
+    side entrance (an "everything is cached" or "single task" fast path) that loads or runs tasks without the bookkeeping that
+    merges equal tasks, marks every instance with its result_meta and releases results."""
+    st = roles.state(ctx)
+    run = ctx.P.func('lab.TaskCoordinator.run')
+    g = ctx.cfg(run)
+    ctors = [c for c in calls_in(run.node) if st.cls.qualname in ctx.P.resolve_call(c, run, by_name=False)]
+    if not ctors:
+        raise AnalysisError('TaskCoordinator.run does not construct the scheduler state')
+    cn = [g.primary(c) for c in ctors]
+    rets = [r for r in walk_local(run.node) if isinstance(r, ast.Return)]
+    if not rets:
+        raise AnalysisError('TaskCoordinator.run has no return statement')
+    for r in rets:
+        ok = any(g.dominates(c, g.primary(r)) for c in cn)
+        yield ctx.ob('C03.RUN-NO-BYPASS', ok, run, r, 'return dominated by the construction of the scheduler state',
+                     '' if ok else f'`{src(r)[:50]}` can be reached without the scheduler state having been built: tasks handled on that path are not '
+                     'merged by equality, their instances are not all marked with result_meta, and nothing is released')
+
+
+@rule('C11.QUERY-PURE', ['C11', 'C05', 'C03', 'C04', 'C17'])
+def query_pure(ctx: Ctx):
+    """The ready-task query only reads the scheduler state.  Tasks leave the pending set in start_task and the dependency
+    relations shrink in complete_task - nowhere else: a query that drops, skips or re-labels tasks on the side leaves their
+    dependents with an edge nobody will ever remove (they stay pending for ever, run_tasks spins) and their dependencies with a
+    dependent nobody will complete (results are never released)."""
+    st = roles.state(ctx)
+    for fn in st.query:
+        ws = field_writes(fn)
+        # reading a defaultdict entry may insert an empty collection; that is not a logical write
+        ws = [w for w in ws if w.kind not in ()]
+        ok = not ws
+        yield ctx.ob('C11.QUERY-PURE', ok, fn, ws[0].node if ws else fn.node, f'{fn.short} writes no scheduler state',
+                     '' if ok else f'`{src(ws[0].node)[:60]}` changes the scheduler state inside the ready-task query: a task removed or re-labelled here is '
+                     'never completed, so its dependents wait for ever and the results it depended on are never released')
